@@ -16,6 +16,40 @@ static void about(const char* op, int fmt, const vh::Trip& t, int extra = -1) {
                             extra >= 0 ? (std::string("->") + FN[extra]).c_str() : "");
     E.about(buf);
 }
+
+// block matrices (BCOO / BSR / BSC) built directly from block lists, independent of the conversions under test
+struct BlockTrip { int R, C, br, bc; std::vector<int> rr, cc; std::vector<std::vector<double>> vv; };
+static BlockTrip gen_block(vh::Rng& g, int cap) {
+    BlockTrip b; b.br = g.range(1, 3); b.bc = g.coin(1, 2) ? b.br : g.range(1, 3);
+    b.R = g.range(0, cap); b.C = g.coin(1, 3) ? b.R : g.range(0, cap);
+    int nb = (b.R == 0 || b.C == 0 || g.coin(1, 8)) ? 0 : g.range(1, 2 * (b.R + b.C) + 1);
+    bool dups = g.coin();
+    for (int k = 0; k < nb; k++) {
+        int r = g.below(b.R), c = g.below(b.C);
+        if (!dups) { bool seen = false; for (size_t q = 0; q < b.rr.size(); q++) if (b.rr[q] == r && b.cc[q] == c) seen = true; if (seen) continue; }
+        std::vector<double> blk(b.br * b.bc); for (auto& v : blk) v = g.coin(1, 4) ? 0 : g.range(-3, 3);
+        b.rr.push_back(r); b.cc.push_back(c); b.vv.push_back(blk);
+    }
+    return b;
+}
+static Matrix* make_block(const BlockTrip& b, int fmt) {
+    int nb = (int)b.rr.size();
+    if (fmt == 0) { BCOOMatrix* M = new BCOOMatrix(b.R, b.C, b.br, b.bc); for (int k = 0; k < nb; k++) M->add_value(b.rr[k], b.cc[k], const_cast<double*>(b.vv[k].data())); return M; }
+    if (fmt == 1) {
+        BSRMatrix* M = new BSRMatrix(b.R, b.C, b.br, b.bc); M->idx1.assign(b.R + 1, 0); M->idx2.clear();
+        for (int i = 0; i < b.R; i++) { for (int k = 0; k < nb; k++) if (b.rr[k] == i) { M->idx2.push_back(b.cc[k]); M->block_vals.push_back(M->copy_val(const_cast<double*>(b.vv[k].data()))); } M->idx1[i + 1] = (int)M->idx2.size(); }
+        M->nnz = (int)M->idx2.size(); return M;
+    }
+    BSCMatrix* M = new BSCMatrix(b.R, b.C, b.br, b.bc); M->idx1.assign(b.C + 1, 0); M->idx2.clear();
+    for (int j = 0; j < b.C; j++) { for (int k = 0; k < nb; k++) if (b.cc[k] == j) { M->idx2.push_back(b.rr[k]); M->block_vals.push_back(M->copy_val(const_cast<double*>(b.vv[k].data()))); } M->idx1[j + 1] = (int)M->idx2.size(); }
+    M->nnz = (int)M->idx2.size(); return M;
+}
+static const char* BN[] = { "BCOO", "BSR", "BSC" };
+static void about_b(const char* op, int fmt, const BlockTrip& b, int extra = -1) {
+    char buf[160]; snprintf(buf, 160, "%s/%s/b%dx%d%s%s%s", op, BN[fmt], b.br, b.bc, b.R != b.C ? "/rect" : "", b.rr.empty() ? "/empty" : "",
+                            extra >= 0 ? (std::string("->") + BN[extra]).c_str() : "");
+    E.about(buf);
+}
 static Matrix* convert(Matrix* A, int dst) { return dst == 0 ? (Matrix*)A->to_COO() : dst == 1 ? (Matrix*)A->to_CSR() : (Matrix*)A->to_CSC(); }
 
 int main(int argc, char** argv)
@@ -102,6 +136,7 @@ int main(int argc, char** argv)
             if (out != A) delete out;
             delete A; delete in;
         }
+
         // --- add / subtract (CSR operands of equal shape, different patterns) ---
         {
             vh::Trip tb = vh::gen_trip(g, n_rows, n_cols, g.range(0, 2 * cap + 2), g.coin(), g.coin(1, 3));
@@ -119,6 +154,47 @@ int main(int argc, char** argv)
             if (E.want()) emit1("addnodup", 0, A0, B0, C);
             delete C;
             delete A; delete B; delete A0; delete B0;
+        }
+    }
+    // second loop (own generator, after the scalar cases so that their case numbers stay what they were)
+    vh::Rng gb(E.seed * 7919 + 77);
+    for (int it = 0; it < ncases; it++)
+    {
+        vh::Rng& g = gb;
+        // --- the same on the block classes: conversion chains, and each operation on a fresh object ---
+        {
+            BlockTrip bt = gen_block(g, 1 + std::min(4, it / 25));
+            int bfmt = g.below(3);
+            {
+                Matrix* A = make_block(bt, bfmt); Matrix* cur = A; std::vector<Matrix*> made;
+                int len = g.range(1, 3);
+                for (int s = 0; s < len; s++) {
+                    int dst = g.below(3);
+                    Matrix* in_copy = cur->copy(); in_copy->sorted = cur->sorted; in_copy->diag_first = cur->diag_first;
+                    about_b("conv", s == 0 ? bfmt : 0, bt, dst);
+                    Matrix* nxt = convert(cur, dst);
+                    if (E.want()) emit1("conv", dst, in_copy, nullptr, nxt);
+                    delete in_copy;
+                    if (nxt != cur) made.push_back(nxt);
+                    cur = nxt;
+                }
+                for (Matrix* m : made) delete m;
+                delete A;
+            }
+            const char* bops[] = { "copy", "sort", "movediag", "rmdup", "transpose" };
+            for (int k = 0; k < 5; k++) {
+                Matrix* A = make_block(bt, bfmt); Matrix* in = make_block(bt, bfmt);
+                Matrix* out = A;
+                about_b(bops[k], bfmt, bt);
+                if (k == 0) out = A->copy();
+                else if (k == 1) A->sort();
+                else if (k == 2) A->move_diag();
+                else if (k == 3) A->remove_duplicates();
+                else out = A->transpose();
+                if (E.want()) emit1(bops[k], 0, in, nullptr, out);
+                if (out != A) delete out;
+                delete A; delete in;
+            }
         }
     }
     E.finish();
